@@ -202,7 +202,8 @@ def check_cost(c, rec):
 # ---- untracked loops keep no history ---------------------------------------------------------------
 @st.composite
 def loop_cases(draw, lengths):
-    return {"L": draw(st.sampled_from(lengths)), "mode": draw(st.sampled_from(["no_grad", "no_requires_grad", "no_grad_on_param"])),
+    return {"L": draw(st.sampled_from(lengths)),
+            "mode": draw(st.sampled_from(["no_grad", "no_requires_grad", "no_grad_on_param", "no_grad_after_backward"])),
             "body": draw(st.sampled_from(["affine", "tanh", "matmul", "index", "sum_broadcast"])), "dtype": draw(st.sampled_from(["float32", "float64"]))}
 
 
@@ -211,8 +212,10 @@ def check_loop(c, rec):
     rec.nontrivial(L >= 1000)
     rec.tag(c["mode"], c["body"])
     dt = np.dtype(c["dtype"])
-    w = Tensor(np.eye(3, dtype=dt) * 0.999, requires_grad=(c["mode"] == "no_grad_on_param"))
-    y = Tensor(np.ones((2, 3), dtype=dt), requires_grad=(c["mode"] == "no_grad_on_param"))
+    on_param = c["mode"] in ("no_grad_on_param", "no_grad_after_backward")
+    w = Tensor(np.eye(3, dtype=dt) * 0.999, requires_grad=on_param)
+    y = Tensor(np.ones((2, 3), dtype=dt), requires_grad=on_param)
+    recorded = (y * w.sum()).sum() if c["mode"] == "no_grad_after_backward" else None   # a graph recorded normally
     refs = []
 
     def body(t):
@@ -234,6 +237,8 @@ def check_loop(c, rec):
 
     if c["mode"].startswith("no_grad"):
         with sg.no_grad():
+            if recorded is not None:
+                recorded.backward()          # differentiating inside the block must not switch tracking back on
             loop()
     else:
         loop()
